@@ -5,7 +5,7 @@ CONSTANTS
   MoveUpAfterFirst = FALSE
   FinishDrawsNoMax = TRUE
   ClearCountsRows = TRUE
-  MCModes <- AllModes
+  MCModes <- ModesAPS
   MCWidths <- W1
   MCGaps <- GapOn
   MCFormats <- FmtNormal
